@@ -83,7 +83,7 @@ func (x *Exec) call(st *State, c *ssa.Call) bool {
 				}
 				n := x.callOrdinal(c)
 				for _, cl := range cls {
-					x.assert(st, fmt.Sprintf("site:call:%s#%d:%s", hk, n, cl.Label), senv.evalBool(cl.Expr), cl.Text, c.Pos())
+					x.assertClause(st, fmt.Sprintf("site:call:%s#%d:%s", hk, n, cl.Label), senv, cl.Expr, cl.Text, c.Pos())
 				}
 			}
 			if len(x.fc.CallGhost[hk]) > 0 {
@@ -120,7 +120,7 @@ func (x *Exec) call(st *State, c *ssa.Call) bool {
 				}
 				n := x.callOrdinal(c)
 				for _, cl := range cls {
-					x.assert(st, fmt.Sprintf("site:call:%s#%d:%s", ename, n, cl.Label), senv.evalBool(cl.Expr), cl.Text, c.Pos())
+					x.assertClause(st, fmt.Sprintf("site:call:%s#%d:%s", ename, n, cl.Label), senv, cl.Expr, cl.Text, c.Pos())
 				}
 			}
 		}
@@ -366,7 +366,7 @@ func (x *Exec) appendOp(st *State, c *ssa.Call) SV {
 		env.vars["$dst"] = s
 		n := x.appendOrdinal(c)
 		for _, cl := range x.fc.AppendSites {
-			x.assert(st, fmt.Sprintf("site:append#%d:%s", n, cl.Label), env.evalBool(cl.Expr), cl.Text, c.Pos())
+			x.assertClause(st, fmt.Sprintf("site:append#%d:%s", n, cl.Label), env, cl.Expr, cl.Text, c.Pos())
 		}
 		for _, g := range x.fc.GhostSteps {
 			if _, ok := st.ghost[g.Name]; !ok {
@@ -507,7 +507,7 @@ func (x *Exec) applyContract(st *State, c *ssa.Call, callee *ssa.Function, fc *F
 				senv.vars[fmt.Sprintf("$%d", i)] = a
 			}
 			for _, cl := range cls {
-				x.assert(st, fmt.Sprintf("site:call:%s#%d:%s", fc.Key, n, cl.Label), senv.evalBool(cl.Expr), cl.Text, c.Pos())
+				x.assertClause(st, fmt.Sprintf("site:call:%s#%d:%s", fc.Key, n, cl.Label), senv, cl.Expr, cl.Text, c.Pos())
 			}
 		}
 	}
